@@ -29,5 +29,30 @@ def jobs(tier):
                        extra=["ALLOC_FAIL", "TL_SHAPE=1", "TL_NRECS=3"],
                        what="k-th allocation fails: %s on a single-node IPv4 trie with exactly 3 records (all values symbolic)" % entry)
         J.append(j)
+    # ---- router-key table (real ht-spkitable.c + tommyhashlin): k-th allocation fails during a history; free returns everything
+    from . import C10
+    hist = [([1], None), ([1, 2], None)] + [([1, 1], k) for k in range(0, 5)]
+    if tier == "thorough":
+        hist += [([1, 4], k) for k in range(0, 6)] + [([1, 1, 1], k) for k in range(0, 7)]
+    for seq, k in hist:
+        # two-operation histories: the final lookups (whose own allocations fail in the one-operation job) are left out
+        noq = ["QUERY_SKI_ONLY", "QUERY_ALL_ONLY"] if len(seq) > 1 else []
+        j = C10.spki_job(list(seq), extra=["ALLOC_FAIL", "ASSERT_C18"] + noq + (["ALLOC_FAIL_AT=%d" % k] if k is not None else []),
+                         name_prefix="spki_allocfail_", weight=3 if len(seq) > 1 else 1,
+                         timeout=1500 if len(seq) < 3 else 5400, mem=12 if len(seq) < 3 else 28)
+        if k is not None:
+            j.name += "_k%d" % k
+        j.extra_checks = ["--pointer-check"]
+        j.desc = ("%s allocation request fails: every call reports an error or succeeds completely, no NULL "
+                  "dereference (CBMC pointer checks on), final spki_table_free returns every block to the configured allocator: "
+                  % ("the k-th (k symbolic, 0 = none)" if k is None else ("request number %d" % k if k else "no"))) + j.desc
+        J.append(j)
+    # the hash container's own allocation (a new bucket segment when a grow step starts) fails
+    for b in (1, 2, 3):
+        j = C10.hl_job(b, 0, 1, n=2, memory=True)
+        j.name = "hashlin_allocfail_insert_b%d" % b
+        j.defines = j.defines + ["ALLOC_FAIL"]
+        j.desc = "the segment allocation of a starting grow step may fail: " + j.desc
+        J.append(j)
     J.append(C02.op_job("ledger_free_v4_d1", "harness_free", 1, 2, 4, 1500, prop="ASSERT_C09", harness="pfx_notify.c"))
     return J
